@@ -98,6 +98,11 @@ def search():
 def main():
     sys.stdin.read()
     n, fail = search()
+    if not fail:
+        from mimic_frame import own_state_problems
+        n += 1
+        p = own_state_problems(lambda f: throttle(limit=2, period=5)(f), True, "throttle")
+        fail = dict(problem=p) if p else None
     if fail:
         print(json.dumps(dict(reproduced=True, detail=fail, cases_tried=n)))
     else:
